@@ -502,13 +502,25 @@ class Tokens:
         return k
 
 
+def struct_eq(a, b) -> bool:
+    """equality of origins / positions / sources as the statement means it: the same class and, field by field, equal
+    values (the fields a frozen dataclass compares) -- computed by the harness itself, not through the objects' `__eq__`"""
+    if dataclasses.is_dataclass(a) and not isinstance(a, type):
+        if type(a) is not type(b):
+            return False
+        return all(struct_eq(getattr(a, f.name), getattr(b, f.name)) for f in dataclasses.fields(a) if f.compare)
+    if isinstance(a, (tuple, list)):
+        return type(a) is type(b) and len(a) == len(b) and all(struct_eq(x, y) for x, y in zip(a, b))
+    return type(a) is type(b) and a == b
+
+
 class OrgTable:
     def __init__(self):
         self.orgs: list = []
 
     def key(self, o) -> int:
         for i, x in enumerate(self.orgs):
-            if type(x) is type(o) and x == o:
+            if struct_eq(x, o):
                 return i
         self.orgs.append(o)
         return len(self.orgs) - 1
